@@ -15,6 +15,7 @@ NOT_DECIDED = [
 ]
 CONFIG_SENSITIVE = False
 DESUGAR = True
+SPLICE_LOOP_HELPERS = True    # a looping helper extracted from an anchored function is judged as part of its caller (mir.splice_loop_helpers)
 
 PE = "plist::PlistEntry"
 EFB = "plist::PlistEntry::from_bytes"
